@@ -24,6 +24,7 @@ var AllKnobs = []string{
 	"args", "inputargs", "lookups",
 	"requires", "provides", "shareable",
 	"partialinterfaces", // a second subgraph declares an interface with its id field only and returns it
+	"extinterfacefields", // an interface field of an entity is owned by another subgraph (@external in the interface's home)
 	"unresolvable",      // reference-only entity stubs are declared @key(resolvable: false)
 	// universe
 	"nulls", "errors",
@@ -379,6 +380,17 @@ func GenConfig(r *common.Rand, k Knobs) *Config {
 				for _, t := range impls {
 					t.def.Fields = append(t.def.Fields, fd)
 					t.owner[fd.Name] = []int{h}
+					// the interface field of an entity may live in another subgraph: the home
+					// subgraph of the interface then declares it @external on that implementer
+					if k["extinterfacefields"] && t.cat == catEntity && len(t.subs) >= 2 && r.Chance(1, 3) {
+						for _, s2 := range t.subs {
+							if s2 != h {
+								t.owner[fd.Name] = []int{s2}
+								g.addExt(h, t.def.Name, fd.Name)
+								break
+							}
+						}
+					}
 				}
 			}
 			for _, t := range impls {
@@ -609,7 +621,7 @@ func GenConfig(r *common.Rand, k Knobs) *Config {
 				continue
 			}
 			r.Shuffle(len(cands), func(a, b int) { cands[a], cands[b] = cands[b], cands[a] })
-			m := 1 + r.Pick(2)
+			m := 1 + r.Pick(3)
 			if m > len(cands) {
 				m = len(cands)
 			}
